@@ -479,6 +479,13 @@ def run(ctx):
     dec = Decoder()
     enc_re = Encoder()
     enc_ho = Encoder(ignore_declared_length=False)
+    if ctx.shard % 2:
+        # the published constructor signatures, used positionally: Encoder(definitions_dir, tables_root_dir, ignore_declared_length,
+        # compiled_template_cache_max, ...), Decoder(definitions_dir, tables_root_dir, compiled_template_cache_max)
+        enc_ho = Encoder(None, None, False)
+        enc_re = Encoder(None, None, True, None)
+        dec = Decoder(None, None, None)
+        ctx.count('coders_constructed_positionally', 3)
     B, D = cases.tables(33)
     rng = ctx.rng
     n = 0
